@@ -19,6 +19,7 @@ import Homonim.Model.Cli
 import Homonim.Model.FuseImage
 import Homonim.Model.PartialMask
 import Homonim.Model.Cubic
+import Homonim.Model.StatsWindow
 open Homonim
 
 def ints (ts : List String) : Option (List Int) := ts.mapM String.toInt?
@@ -175,6 +176,28 @@ def handlePStats (toks : List String) : String :=
       let st := paramStats acc (wi ≠ "0")
       s!"{acc.n} {showORat st.mean} {showORat st.var} {showORat st.min} {showORat st.max} {showORat st.inpaintP}"
     | _, _ => "bad-args"
+  | _ => "bad-args"
+
+/-- datawin <H> <W> <tileH> <tileW> <order> <bits of band 1> <bits of band 2> ...  (row-major `0`/`1` strings, one per band;
+    `order` = `f` tiles in file order, `r` reversed)  →  data window `r0 c0 h w` (or `none`), then the tiles read, `r0:c0` each -/
+def handleDataWin (toks : List String) : String :=
+  match toks with
+  | hh :: ww :: th :: tw :: ord :: bandBits =>
+    match hh.toNat?, ww.toNat?, th.toNat?, tw.toNat? with
+    | some H, some W, some tH, some tW =>
+      if tH = 0 || tW = 0 || bandBits.isEmpty || bandBits.any (fun b => b.length != H * W) then "bad-args" else
+      let bands : List (Nat → Nat → Bool) := bandBits.map fun b =>
+        let arr := b.toList.toArray
+        fun r c => r < H && c < W && arr.getD (r * W + c) '0' == '1'
+      let tiles0 : List Win := (List.range ((H + tH - 1) / tH)).flatMap fun i => (List.range ((W + tW - 1) / tW)).map fun j =>
+        ⟨i * tH, j * tW, min tH (H - i * tH), min tW (W - j * tW)⟩
+      let tiles := if ord = "r" then tiles0.reverse else tiles0
+      let win := match dataWindow (anyBand bands) tiles with
+        | none => "none"
+        | some w => s!"{w.r0} {w.c0} {w.h} {w.w}"
+      let read := (tilesRead bands tiles tiles0).map fun t => s!"{t.r0}:{t.c0}"
+      win ++ " | " ++ " ".intercalate read
+    | _, _, _, _ => "bad-args"
   | _ => "bad-args"
 
 def parseBand (t : String) : Option BandMeta :=
@@ -493,6 +516,7 @@ def handle (toks : List String) : String :=
   | "match" :: rest => handleMatch rest
   | "cmpstats" :: rest => handleCmp rest
   | "pstats" :: rest => handlePStats rest
+  | "datawin" :: rest => handleDataWin rest
   | "convert" :: rest => handleConvert rest
   | "resample" :: rest => handleResample rest
   -- erode kh kw h w <h*w bits>  : `_full_coverage_mask` erosion over one block (false border)
